@@ -211,12 +211,16 @@ func evaluate(a vh.Args, res *vh.Result, cases []*tcase) {
 		}
 		// property predicate on the implementation alone
 		propDetail := ""
-		if c.op.pred != nil {
-			propDetail = c.op.pred(c, o.impl)
-		} else if c.op.orac != nil {
-			if want := c.op.orac(c); want != "" && want != o.impl {
-				propDetail = diffDetail("implementation", o.impl, "math/big", want)
+		if p := vh.Safely(func() {
+			if c.op.pred != nil {
+				propDetail = c.op.pred(c, o.impl)
+			} else if c.op.orac != nil {
+				if want := c.op.orac(c); want != "" && want != o.impl {
+					propDetail = diffDetail("implementation", o.impl, "math/big", want)
+				}
 			}
+		}); p != "" {
+			res.Note("harness oracle panicked on %s: %s", trunc(c.canon()), p)
 		}
 		if o.mutated != "" {
 			report(res, vh.Mismatch{ID: fmt.Sprintf("%s-%d", c.op.name, i), Kind: "prop", Key: "cap-below-announced-modifies-operand",
